@@ -352,12 +352,16 @@ func plans() map[string]*propertyPlan {
 				// the eighth of such a run), and escapes inside the substatements of a pattern
 				enumSpec("a;{} \n", 5, "a{b{c{d{e{f{g{h", "}}}}}}}", 8), enumSpec("a;{} ", 5, "a{b{c{d{e{f{g{h{i{j{k;}}}", "}}}}}}}}", 8),
 				enumSpec("a\\dn\" ", 5, "pattern \"a\" { b \"", "\"; }", 8), enumSpec("a\\dn\" +", 5, "pattern ", " { pattern \"\\d\"; b \"\\n\"; }", 8),
+				// characters a byte-minded lexer takes for syntax: U+4E0D (low byte CR), U+2020 (low
+				// byte blank), U+013B (low byte ';'), the replacement character, NUL
+				enumSpec("a;{\" 不†Ļ\ufffd\x00", 5, "", "", 16), enumSpec("a 不†Ļ\ufffd\x00\n", 5, "a \"b\"", ";", 8), enumSpec("a 不\ufffd'\"", 5, "a '", "';", 8),
 				{family: "random", cases: 200000, cpuS: 600, asKB: 8 << 20, wallS: 900},
 			},
 			thorough: []spec{
 				enumSpec(sigma15, 6, "", "", 64), enumSpec(sigma15, 6, "a ", ";", 64), enumSpec(sigma15, 5, "a{", "}", 16), enumSpec(sigma15, 6, "a \"b\"", "", 64), enumSpec(sigma15, 5, "pattern ", ";", 16),
 				enumSpec("a+\"' ", 9, "a \"b\"", ";", 32), enumSpec("a+\"';{}", 8, "a ", "", 32), enumSpec("a+\"' \n", 8, "a \"b\"", ";", 32),
 				enumSpec("a;{}\"\\n \n", 8, "", "", 64), enumSpec("a+\"';\n /*", 7, "", "", 32), enumSpec("a\" \n\t\\n;", 8, "", "", 64),
+				enumSpec("a;{}\" 不†Ļ\ufffd\x00", 6, "", "", 64), enumSpec("a 不†Ļ\ufffd\x00\n;", 6, "a \"b\"", ";", 32), enumSpec("a 不\ufffd'\"\n", 6, "a '", "';", 16),
 				{family: "random", cases: 2000000, cpuS: 3600, asKB: 8 << 20, wallS: 5400},
 			},
 		},
@@ -475,8 +479,8 @@ func plans() map[string]*propertyPlan {
 			assumptions: []string{"the underlying writer honours io.Writer: n < len(p) implies a non-nil error", "behaviour after a failed Write is unspecified and not driven"},
 			minObserved: map[string]int64{"cases": 1000},
 			nontrivial:  "nontrivial", evaluations: "cases,large_cases,stacked_cases,out_of_contract_cases", exhaustive: true,
-			quick:    []spec{{family: "enum", shards: 16, params: map[string]string{"alphabet": "ab\n", "maxlen": "6"}, cpuS: 600, asKB: 8 << 20, wallS: 900}, {family: "large", shards: 16, cpuS: 600, asKB: 8 << 20, wallS: 900}, {family: "stacked", shards: 15, cpuS: 600, asKB: 8 << 20, wallS: 900}},
-			thorough: []spec{{family: "enum", shards: 64, params: map[string]string{"alphabet": "ab\n", "maxlen": "8"}, cpuS: 3600, asKB: 8 << 20, wallS: 5400}, {family: "enum", shards: 16, params: map[string]string{"alphabet": "a\n", "maxlen": "10"}, cpuS: 3600, asKB: 8 << 20, wallS: 5400}, {family: "large", shards: 16, cpuS: 600, asKB: 8 << 20, wallS: 900}, {family: "stacked", shards: 15, cpuS: 600, asKB: 8 << 20, wallS: 900}},
+			quick:    []spec{{family: "enum", shards: 16, params: map[string]string{"alphabet": "ab\n", "maxlen": "6"}, cpuS: 600, asKB: 8 << 20, wallS: 900}, {family: "enum", shards: 16, params: map[string]string{"alphabet": `"\x00\r\n\xff-"`, "maxlen": "5"}, cpuS: 600, asKB: 8 << 20, wallS: 900}, {family: "large", shards: 16, cpuS: 600, asKB: 8 << 20, wallS: 900}, {family: "stacked", shards: 15, cpuS: 600, asKB: 8 << 20, wallS: 900}},
+			thorough: []spec{{family: "enum", shards: 64, params: map[string]string{"alphabet": "ab\n", "maxlen": "8"}, cpuS: 3600, asKB: 8 << 20, wallS: 5400}, {family: "enum", shards: 16, params: map[string]string{"alphabet": "a\n", "maxlen": "10"}, cpuS: 3600, asKB: 8 << 20, wallS: 5400}, {family: "enum", shards: 32, params: map[string]string{"alphabet": `"\x00\r\n\xff-"`, "maxlen": "7"}, cpuS: 3600, asKB: 8 << 20, wallS: 5400}, {family: "large", shards: 16, cpuS: 600, asKB: 8 << 20, wallS: 900}, {family: "stacked", shards: 15, cpuS: 600, asKB: 8 << 20, wallS: 900}},
 		},
 	}
 }
